@@ -105,6 +105,33 @@ def const_discr(fn, e):
                 vi = variant_index(fn.crate, adt, var)
                 if vi is not None:
                     return vi
+        # `?` on a value whose variant is known (an inlined helper returning Ok(..) / an error built by from_residual)
+        if inner[0] == 'call' and isinstance(inner[1], str):
+            nm = inner[1]
+            if nm.endswith('Try>::branch') or nm.endswith('Try::branch'):
+                x = inner[2][0] if inner[2] else None
+                k = _known_variant(x)
+                if k is not None:
+                    return 0 if k == 'success' else 1          # ControlFlow::Continue = 0, Break = 1
+            if nm.endswith('::from_residual'):
+                if 'result::Result' in nm:
+                    return 1                                       # Err
+                if 'option::Option' in nm:
+                    return 0                                       # None
+    return None
+
+
+def _known_variant(x):
+    """'success' / 'failure' for an Option/Result expression whose variant is syntactically known"""
+    if not isinstance(x, tuple):
+        return None
+    if x[0] == 'agg':
+        if x[1].endswith(('Result::Ok', 'Option::Some')):
+            return 'success'
+        if x[1].endswith(('Result::Err', 'Option::None')):
+            return 'failure'
+    if x[0] == 'call' and isinstance(x[1], str) and x[1].endswith('::from_residual'):
+        return 'failure'
     return None
 
 
